@@ -341,7 +341,11 @@ def to_model(case):
 
 
 def run_impl(case):
-    return {str(m): _impl(case, m) for m in RUNS}
+    obs = {str(m): _impl(case, m) for m in RUNS}
+    if case["kind"] == "validate" and case.get("pre", 0) > 0 and case["reset"]:
+        # reference: the same record validated once only (reset_errors=True starts every call afresh)
+        obs["_once"] = R.impl_validate(case["spec"], "Silent", True, case["vscheme"], case.get("tamper"), 0)
+    return obs
 
 
 def from_model(case, sx):
@@ -355,7 +359,7 @@ def from_model(case, sx):
 def comparable(obs):
     def strip(o):
         return {k: v for k, v in o.items() if not k.startswith("_")} if isinstance(o, dict) else o
-    return {m: strip(o) for m, o in obs.items()}
+    return {m: strip(o) for m, o in obs.items() if not m.startswith("_")}
 
 
 # ------------------------------------------------------------------ oracle
@@ -529,6 +533,11 @@ def oracle(case, obs):
     elif k == "validate":
         if S[0] == "noparse":
             return out
+        once = obs.get("_once")
+        if once is not None and once[0] == "parsed" and once[1]["res"][0] == "ok" and S[1]["res"][0] == "ok" \
+                and once[1]["res"][1]["errs"] != S[1]["res"][1]["errs"]:
+            out.append("validate-repeated-with-reset-differs-from-single %r vs %r"
+                       % (S[1]["res"][1]["errs"][:6], once[1]["res"][1]["errs"][:6]))
         _simple("validate", S[1], L[1], T[1], lambda r: r["errs"], out)
     elif k == "reader":
         _reader(S, L, T, out)
